@@ -1391,7 +1391,16 @@ async fn serve_session<S: tokio::io::AsyncRead + tokio::io::AsyncWrite + Unpin>(
         let off = text.len() - trimmed.len();
         i += off;
         let Some(req) = parse_elem(body, &mut i) else {
-            log(&st, json!({"ev": "req", "kind": "unparseable", "wellformed": false, "raw": text.chars().take(300).collect::<String>()}));
+            // what the agent sent is not well-formed XML: the router says so (it can usually still read the message-id)
+            let id = text.split("message-id=\"").nth(1).and_then(|r| r.split('"').next()).unwrap_or("").to_string();
+            log(&st, json!({"ev": "req", "kind": "unparseable", "wellformed": false, "fault": "none", "mutated": false, "id": id,
+                            "raw": text.chars().take(300).collect::<String>()}));
+            if !id.is_empty() && id.chars().all(|c| c.is_ascii_digit()) {
+                let r = format!("<rpc-reply message-id=\"{id}\" xmlns=\"{BASE_NS}\"><rpc-error><error-type>rpc</error-type><error-tag>malformed-message</error-tag><error-severity>error</error-severity><error-message>syntax error in the request</error-message></rpc-error></rpc-reply>{EOM}");
+                if stream.write_all(r.as_bytes()).await.is_err() {
+                    break;
+                }
+            }
             continue;
         };
         let id = req.attr("message-id").unwrap_or("0").to_string();
